@@ -3,70 +3,60 @@ package main
 import (
 	"bufio"
 	"os"
+	"path/filepath"
+	"sort"
 	"strings"
 )
 
-// corpus/versions.txt: lines "<eco>\t<go-quoted string>"; minimised disagreements, finding
-// witnesses and interesting seeds.  They are tried first in every pool.
+// corpus/versions.txt, corpus/versions.d/*.txt (and ranges.txt, ranges.d/*.txt): lines
+// "<eco>\t<go-quoted string>"; minimised disagreements, finding witnesses and interesting
+// seeds.  They are tried first in every pool / range stream.
 var corpusV map[string][]string
+var corpusR map[string][]string
 
-func loadCorpus() {
-	corpusV = map[string][]string{}
-	f, err := os.Open(verifRoot() + "/corpus/versions.txt")
-	if err != nil {
-		return
-	}
-	defer f.Close()
-	sc := bufio.NewScanner(f)
-	sc.Buffer(make([]byte, 1<<20), 1<<20)
-	for sc.Scan() {
-		line := sc.Text()
-		if line == "" || strings.HasPrefix(line, "#") {
-			continue
-		}
-		tab := strings.IndexByte(line, '\t')
-		if tab < 0 {
-			continue
-		}
-		s, err := unquote(line[tab+1:])
+func loadCorpusFiles(base string) map[string][]string {
+	out := map[string][]string{}
+	files := []string{verifRoot() + "/corpus/" + base + ".txt"}
+	more, _ := filepath.Glob(verifRoot() + "/corpus/" + base + ".d/*.txt")
+	sort.Strings(more)
+	files = append(files, more...)
+	for _, fn := range files {
+		f, err := os.Open(fn)
 		if err != nil {
 			continue
 		}
-		corpusV[line[:tab]] = append(corpusV[line[:tab]], s)
+		sc := bufio.NewScanner(f)
+		sc.Buffer(make([]byte, 1<<20), 1<<20)
+		for sc.Scan() {
+			line := sc.Text()
+			if line == "" || strings.HasPrefix(line, "#") {
+				continue
+			}
+			tab := strings.IndexByte(line, '\t')
+			if tab < 0 {
+				continue
+			}
+			s, err := unquote(line[tab+1:])
+			if err != nil {
+				continue
+			}
+			out[line[:tab]] = append(out[line[:tab]], s)
+		}
+		f.Close()
 	}
+	return out
 }
-
-var corpusR map[string][]string
 
 func corpusRanges(eco string) []string {
 	if corpusR == nil {
-		corpusR = map[string][]string{}
-		f, err := os.Open(verifRoot() + "/corpus/ranges.txt")
-		if err == nil {
-			defer f.Close()
-			sc := bufio.NewScanner(f)
-			sc.Buffer(make([]byte, 1<<20), 1<<20)
-			for sc.Scan() {
-				line := sc.Text()
-				if line == "" || strings.HasPrefix(line, "#") {
-					continue
-				}
-				tab := strings.IndexByte(line, '\t')
-				if tab < 0 {
-					continue
-				}
-				if s, err := unquote(line[tab+1:]); err == nil {
-					corpusR[line[:tab]] = append(corpusR[line[:tab]], s)
-				}
-			}
-		}
+		corpusR = loadCorpusFiles("ranges")
 	}
 	return corpusR[eco]
 }
 
 func corpusVersions(eco string) []string {
 	if corpusV == nil {
-		loadCorpus()
+		corpusV = loadCorpusFiles("versions")
 	}
 	return corpusV[eco]
 }
